@@ -66,9 +66,12 @@ class Sampler:
             z = self.xp.asarray(z_np, dtype=getattr(like, "dtype", None))
         else:
             z = z_np
+        before = np.array(z_np, copy=True)
         val = self.log_prob_fn(z)
+        # the kernel's own array must not be modified by the target it calls
+        self.last_input_mutated = not np.array_equal(before, _to_np(z).astype(float), equal_nan=True)
         for tap in list(TAPS):
-            tap(z, val, self)
+            tap(before, val, self)
         v = _to_np(val).astype(float).reshape(-1)
         if v.shape[0] != z_np.shape[0]:
             raise ValueError(f"log_prob_fn returned {v.shape[0]} values for {z_np.shape[0]} points")
